@@ -15,7 +15,7 @@ import isogen
 import readcheck
 
 LEVEL = "proof"
-CONE = ["Props/C09.v", "Proofs/FragProofs.v", "Spec/Fragment.v", "Model/Track.v"]
+CONE = ["Props/C09.v", "Props/C09Open.v", "Proofs/FragProofs.v", "Proofs/FragFile.v", "Spec/Fragment.v", "Model/Track.v", "Model/Reader.v"]
 
 
 def gen_movies(rng, tier):
@@ -85,7 +85,7 @@ def gen_movies(rng, tier):
 
 
 def check(rep):
-    proof_ok, details = common.proof_layer(rep, "C09", CONE, extra_targets=["theories/Extract/Extract.vo"])
+    proof_ok, details = common.proof_layer(rep, ["C09", "C09Open"], CONE, extra_targets=["theories/Extract/Extract.vo"])
     with common.Lock():
         hb_ok, hb_log = common.harness_build(["run"])
         ob_ok, ob_log = common.ocaml_build()
